@@ -1,27 +1,1378 @@
-//! Embedded-mode driver: runs the generated `Dfir`s tick by tick, feeding inputs according to a
-//! tick partition chosen by the harness, and judges the outputs.
+//! C35 "Messages survive serialization and reach the addressed member".
+//!
+//! For every (flow shape, payload type) pair `build.rs` ran the production generator `generate_embedded`;
+//! each generated location function exposes its raw network channels. This driver instantiates one generated
+//! `Dfir` per process / cluster member, feeds inputs (and membership events) tick by tick, and plays the
+//! transport itself: every frame a sender hands to its `EmbeddedNetworkOut` closure is carried to exactly the
+//! receiver instance the frame is addressed to (for cluster-addressed channels: the member whose
+//! `TaglessMemberId` equals the tag the generated code emitted, nobody else), tagged with the sender's id where
+//! the receiver expects a tag, with random per-link delays and interleavings that preserve per-link FIFO
+//! (what a TCP transport gives). The oracle then compares what every receiver instance emitted on its
+//! `embedded_output` with what the scenario says it must receive.
 pub mod emb {
     include!(concat!(env!("OUT_DIR"), "/all.rs"));
 }
 
+use std::cell::RefCell;
+use std::collections::{BTreeMap, HashMap, VecDeque};
+use std::rc::Rc;
+
+use dfir_rs::bytes::{Bytes, BytesMut};
+use dfir_rs::scheduled::context::{Dfir, TickClosure};
 use hv_common::Feed;
+use hv_net_flows::{Dst, PInt, POptVec, PStr, Rec, Routed, Shape, Src};
+use hydro_lang::location::member_id::TaglessMemberId;
+use hydro_lang::location::{MemberId, MembershipEvent};
+use hydro_lang::runtime_support::bincode;
+use serde::de::DeserializeOwned;
+use serde::{Deserialize, Serialize};
+use vcommon::{Args, Reporter, Rng, Tier, Value, catch, hash_of, json, serde_json};
+
+// =================================================================================================
+// scenario description (self-contained: it is the replay descriptor)
+
+#[derive(Serialize, Deserialize, Clone, Debug)]
+enum Round<T> {
+    /// Membership events of the destination cluster, shown to every sender instance in this round.
+    Mem(Vec<(u32, bool)>),
+    /// `Data[s]` = what sender instance `s` is fed in this round; the `Option<u32>` is the raw id of the
+    /// addressed member for demux flows, `None` otherwise.
+    Data(Vec<Vec<(Option<u32>, T)>>),
+}
+
+#[derive(Serialize, Deserialize, Clone, Debug)]
+struct Scenario<T> {
+    entry: String,
+    /// raw ids of the sending cluster's members (empty: the sender is a process)
+    src_ids: Vec<u32>,
+    /// raw ids of the receiving cluster's members (empty: the receiver is a process)
+    dst_ids: Vec<u32>,
+    rounds: Vec<Round<T>>,
+    /// seed of the transport's delay / interleaving choices
+    net_seed: u64,
+}
+
+#[derive(Clone, Copy, PartialEq, Eq, Debug)]
+enum Mode {
+    Plain,
+    Demux,
+    Bcast,
+}
+
+#[derive(Clone, Copy, Debug)]
+struct Meta {
+    entry: &'static str,
+    flow: &'static str,
+    payload: &'static str,
+    ser: &'static str,
+    snd_cluster: bool,
+    rcv_cluster: bool,
+    mode: Mode,
+    selfid: bool,
+}
+
+type Wire<W> = Rc<RefCell<Vec<(Option<TaglessMemberId>, W)>>>;
+type OutBuf<T> = Rc<RefCell<Vec<(Option<TaglessMemberId>, T)>>>;
+type SideBuf = Rc<RefCell<Vec<(TaglessMemberId, TaglessMemberId)>>>;
+
+#[derive(Default, Debug)]
+struct DriveLog {
+    /// per sender instance: the destination tags it put on the wire, in emission order
+    wire_tags: Vec<Vec<Option<u32>>>,
+    /// (sender, raw id) of frames whose tag matched no receiver instance (dropped by the transport)
+    undeliverable: Vec<(usize, u32)>,
+    /// (sender, raw id) of broadcast frames addressed to a member whose `Left` event had been fed in an
+    /// earlier tick when the frame was emitted (dropped by the transport, judged by the oracle)
+    to_left: Vec<(usize, u32)>,
+    frames: u64,
+}
+
+struct Observed<T> {
+    /// per receiver instance, in output order: (sender tag seen by the program, value)
+    recv: Vec<Vec<(Option<TaglessMemberId>, T)>>,
+    /// (transport tag, CLUSTER_SELF_ID stamped by the sender) pairs for the self-id flow
+    side: Vec<(TaglessMemberId, TaglessMemberId)>,
+    log: DriveLog,
+}
+
+// =================================================================================================
+// the transport's view of the two serialization modes
+
+trait Transport<W> {
+    type In;
+    type InTagged;
+    fn plain(w: W) -> Self::In;
+    fn tagged(from: TaglessMemberId, w: W) -> Self::InTagged;
+}
+/// `.bincode()`: the channel carries bytes.
+struct Bin;
+impl Transport<Bytes> for Bin {
+    type In = Result<BytesMut, std::io::Error>;
+    type InTagged = Result<(TaglessMemberId, BytesMut), std::io::Error>;
+    fn plain(w: Bytes) -> Self::In {
+        Ok(BytesMut::from(&w[..]))
+    }
+    fn tagged(from: TaglessMemberId, w: Bytes) -> Self::InTagged {
+        Ok((from, BytesMut::from(&w[..])))
+    }
+}
+/// `.embedded()`: the channel carries the raw payload.
+struct Raw;
+impl<T> Transport<T> for Raw {
+    type In = T;
+    type InTagged = (TaglessMemberId, T);
+    fn plain(w: T) -> T {
+        w
+    }
+    fn tagged(from: TaglessMemberId, w: T) -> (TaglessMemberId, T) {
+        (from, w)
+    }
+}
+
+trait TickDyn {
+    fn tick(&mut self);
+}
+impl<X: TickClosure> TickDyn for Dfir<X> {
+    fn tick(&mut self) {
+        self.run_tick_sync();
+    }
+}
+
+fn tagless(raw: u32) -> TaglessMemberId {
+    TaglessMemberId::from_raw_id(raw)
+}
+
+/// Typed id of an addressed member, built through either public constructor.
+fn mk_member<Tag>(raw: u32) -> MemberId<Tag> {
+    if raw % 2 == 0 { MemberId::from_raw_id(raw) } else { MemberId::from_tagless(tagless(raw)) }
+}
+
+// =================================================================================================
+// driving one scenario (generic part)
+
+const EXTRA_ROUNDS: usize = 3;
+
+#[allow(clippy::too_many_arguments)]
+fn drive<T: Clone, W>(
+    sc: &Scenario<T>,
+    meta: &Meta,
+    feed_in: &dyn Fn(usize, Option<u32>, T),
+    feed_mem: &dyn Fn(usize, TaglessMemberId, MembershipEvent),
+    senders: &mut [&mut dyn TickDyn],
+    wires: &[Wire<W>],
+    deliver: &dyn Fn(usize, usize, W),
+    receivers: &mut [&mut dyn TickDyn],
+) -> DriveLog {
+    let mut rng = Rng::new(sc.net_seed);
+    let ns = senders.len();
+    let nr = receivers.len();
+    let dst_index: HashMap<u32, usize> = sc.dst_ids.iter().enumerate().map(|(i, id)| (*id, i)).collect();
+    let mut joined: HashMap<u32, bool> = HashMap::new();
+    let mut links: Vec<Vec<VecDeque<W>>> = (0..nr).map(|_| (0..ns).map(|_| VecDeque::new()).collect()).collect();
+    let mut log = DriveLog { wire_tags: vec![vec![]; ns], ..Default::default() };
+    // the number of rounds is fixed by the scenario: no loop here can run longer than its input
+    let total = sc.rounds.len() + EXTRA_ROUNDS;
+    for k in 0..total {
+        match sc.rounds.get(k) {
+            Some(Round::Mem(evs)) => {
+                for s in 0..ns {
+                    for (id, j) in evs {
+                        feed_mem(s, tagless(*id), if *j { MembershipEvent::Joined } else { MembershipEvent::Left });
+                    }
+                }
+            }
+            Some(Round::Data(per)) => {
+                for s in 0..ns {
+                    for (d, t) in &per[s] {
+                        feed_in(s, *d, t.clone());
+                    }
+                }
+            }
+            None => {}
+        }
+        for s in senders.iter_mut() {
+            s.tick();
+        }
+        if let Some(Round::Mem(evs)) = sc.rounds.get(k) {
+            for (id, j) in evs {
+                joined.insert(*id, *j);
+            }
+        }
+        // pick up the frames: route by the tag the generated code emitted, and by nothing else
+        for s in 0..ns {
+            let frames: Vec<_> = wires[s].borrow_mut().drain(..).collect();
+            for (tag, w) in frames {
+                log.frames += 1;
+                let raw = tag.as_ref().map(|t| t.get_raw_id());
+                log.wire_tags[s].push(raw);
+                let r = match raw {
+                    None => 0,
+                    Some(raw) => match dst_index.get(&raw) {
+                        Some(r) => {
+                            if meta.mode == Mode::Bcast && joined.get(&raw) == Some(&false) {
+                                log.to_left.push((s, raw));
+                                continue;
+                            }
+                            *r
+                        }
+                        None => {
+                            log.undeliverable.push((s, raw));
+                            continue;
+                        }
+                    },
+                };
+                links[r][s].push_back(w);
+            }
+        }
+        // deliver a random amount per link, interleaving links at random (per-link FIFO is kept)
+        let flush = k >= sc.rounds.len();
+        for r in 0..nr {
+            let mut quota: Vec<usize> = (0..ns)
+                .map(|s| {
+                    let len = links[r][s].len();
+                    if flush || len == 0 || rng.chance(1, 2) { len } else { rng.below(len + 1) }
+                })
+                .collect();
+            loop {
+                let live: Vec<usize> = (0..ns).filter(|s| quota[*s] > 0).collect();
+                if live.is_empty() {
+                    break;
+                }
+                let s = *rng.choose(&live);
+                quota[s] -= 1;
+                let w = links[r][s].pop_front().expect("quota <= len");
+                deliver(r, s, w);
+            }
+        }
+        for r in receivers.iter_mut() {
+            r.tick();
+        }
+    }
+    log
+}
+
+// =================================================================================================
+// instantiating the generated code (one expansion per generated module)
+
+macro_rules! in_item {
+    (plain, $d:expr, $t:expr) => { $t };
+    (bcast, $d:expr, $t:expr) => { $t };
+    (demux, $d:expr, $t:expr) => { (mk_member::<Dst>($d.expect("demux message without destination")), $t) };
+}
+macro_rules! net_out_closure {
+    (plain, $W:ty, $w:ident) => { move |x: $W| $w.borrow_mut().push((None, x)) };
+    (bcast, $W:ty, $w:ident) => { move |x: (TaglessMemberId, $W)| $w.borrow_mut().push((Some(x.0), x.1)) };
+    (demux, $W:ty, $w:ident) => { move |x: (TaglessMemberId, $W)| $w.borrow_mut().push((Some(x.0), x.1)) };
+}
+macro_rules! mk_sender {
+    (proc, plain, $gm:ident, $id:expr, $mem:expr, $inp:expr, $no:expr) => { $gm::sender($inp, $no) };
+    (proc, demux, $gm:ident, $id:expr, $mem:expr, $inp:expr, $no:expr) => { $gm::sender($inp, $no) };
+    (proc, bcast, $gm:ident, $id:expr, $mem:expr, $inp:expr, $no:expr) => {
+        $gm::sender($gm::sender::EmbeddedMembershipStreams { receiver: $mem }, $inp, $no)
+    };
+    (clus, plain, $gm:ident, $id:expr, $mem:expr, $inp:expr, $no:expr) => { $gm::sender($id, $inp, $no) };
+    (clus, demux, $gm:ident, $id:expr, $mem:expr, $inp:expr, $no:expr) => { $gm::sender($id, $inp, $no) };
+    (clus, bcast, $gm:ident, $id:expr, $mem:expr, $inp:expr, $no:expr) => {
+        $gm::sender($id, $gm::sender::EmbeddedMembershipStreams { receiver: $mem }, $inp, $no)
+    };
+    (clus_selfid, $mode:tt, $gm:ident, $id:expr, $mem:expr, $inp:expr, $no:expr) => {
+        mk_sender!(clus, $mode, $gm, $id, $mem, $inp, $no)
+    };
+}
+macro_rules! mk_receiver {
+    (proc, $gm:ident, $id:expr, $out:expr, $ni:expr) => { $gm::receiver($out, $ni) };
+    (clus, $gm:ident, $id:expr, $out:expr, $ni:expr) => { $gm::receiver($id, $out, $ni) };
+}
+// what the receiving program outputs depends on the kind of the *sender*: values from a process are bare,
+// values from a cluster are keyed by the sender's typed member id
+macro_rules! out_closure {
+    (proc, $T:ty, $buf:ident, $side:ident) => { move |t: $T| $buf.borrow_mut().push((None, t)) };
+    (clus, $T:ty, $buf:ident, $side:ident) => {
+        move |x: (MemberId<Src>, $T)| $buf.borrow_mut().push((Some(x.0.into_tagless()), x.1))
+    };
+    (clus_selfid, $T:ty, $buf:ident, $side:ident) => {
+        move |x: (MemberId<Src>, (MemberId<Src>, $T))| {
+            let tag = x.0.into_tagless();
+            let (stamped, t) = x.1;
+            $side.borrow_mut().push((tag.clone(), stamped.into_tagless()));
+            $buf.borrow_mut().push((Some(tag), t));
+        }
+    };
+}
+macro_rules! to_net_in {
+    (proc, $Tr:ident, $W:ty, $from:expr, $w:expr) => { <$Tr as Transport<$W>>::plain($w) };
+    (clus, $Tr:ident, $W:ty, $from:expr, $w:expr) => { <$Tr as Transport<$W>>::tagged($from, $w) };
+    (clus_selfid, $Tr:ident, $W:ty, $from:expr, $w:expr) => { <$Tr as Transport<$W>>::tagged($from, $w) };
+}
+
+macro_rules! runner {
+    ($name:ident, $T:ty, $W:ty, $Tr:ident, $snd:tt, $mode:tt, $rcv:tt) => {
+        #[allow(unused_variables, non_snake_case)]
+        fn $name(sc: &Scenario<$T>, meta: &Meta) -> Observed<$T> {
+            use emb::$name as gm;
+            let ids = |v: &Vec<u32>| -> Vec<TaglessMemberId> {
+                if v.is_empty() { vec![tagless(0)] } else { v.iter().map(|r| tagless(*r)).collect() }
+            };
+            let src_ids = ids(&sc.src_ids);
+            let dst_ids = ids(&sc.dst_ids);
+            let (ns, nr) = (src_ids.len(), dst_ids.len());
+
+            let in_feeds: Vec<Feed<_>> = (0..ns).map(|_| Feed::new()).collect();
+            let mem_feeds: Vec<Feed<(TaglessMemberId, MembershipEvent)>> = (0..ns).map(|_| Feed::new()).collect();
+            let wires: Vec<Wire<$W>> = (0..ns).map(|_| Rc::default()).collect();
+            let mut net_outs: Vec<_> = wires
+                .iter()
+                .map(|w| {
+                    let w = w.clone();
+                    gm::sender::EmbeddedNetworkOut { ch: net_out_closure!($mode, $W, w) }
+                })
+                .collect();
+            let mut senders: Vec<_> = net_outs
+                .iter_mut()
+                .enumerate()
+                .map(|(i, no)| mk_sender!($snd, $mode, gm, &src_ids[i], mem_feeds[i].clone(), in_feeds[i].clone(), no))
+                .collect();
+
+            let net_feeds: Vec<Feed<_>> = (0..nr).map(|_| Feed::new()).collect();
+            let bufs: Vec<OutBuf<$T>> = (0..nr).map(|_| Rc::default()).collect();
+            let side: SideBuf = Rc::default();
+            let mut outs: Vec<_> = bufs
+                .iter()
+                .map(|b| {
+                    let b = b.clone();
+                    let side = side.clone();
+                    gm::receiver::EmbeddedOutputs { output: out_closure!($snd, $T, b, side) }
+                })
+                .collect();
+            let mut receivers: Vec<_> = outs
+                .iter_mut()
+                .enumerate()
+                .map(|(i, o)| {
+                    mk_receiver!($rcv, gm, &dst_ids[i], o, gm::receiver::EmbeddedNetworkIn { ch: net_feeds[i].clone() })
+                })
+                .collect();
+
+            let log = {
+                let mut s_dyn: Vec<&mut dyn TickDyn> = senders.iter_mut().map(|d| d as &mut dyn TickDyn).collect();
+                let mut r_dyn: Vec<&mut dyn TickDyn> = receivers.iter_mut().map(|d| d as &mut dyn TickDyn).collect();
+                drive::<$T, $W>(
+                    sc,
+                    meta,
+                    &|s, d, t| in_feeds[s].push_all([in_item!($mode, d, t)]),
+                    &|s, id, ev| mem_feeds[s].push_all([(id, ev)]),
+                    &mut s_dyn,
+                    &wires,
+                    &|r, s, w| net_feeds[r].push_all([to_net_in!($snd, $Tr, $W, src_ids[s].clone(), w)]),
+                    &mut r_dyn,
+                )
+            };
+            drop(receivers);
+            drop(senders);
+            Observed {
+                recv: bufs.iter().map(|b| std::mem::take(&mut *b.borrow_mut())).collect(),
+                side: std::mem::take(&mut *side.borrow_mut()),
+                log,
+            }
+        }
+    };
+}
+macro_rules! entry_runner {
+    ($name:ident, $T:ty, bincode, $snd:tt, $mode:tt, $rcv:tt) => { runner!($name, $T, Bytes, Bin, $snd, $mode, $rcv); };
+    ($name:ident, $T:ty, embedded, $snd:tt, $mode:tt, $rcv:tt) => { runner!($name, $T, $T, Raw, $snd, $mode, $rcv); };
+}
+macro_rules! is_clus {
+    (proc) => { false };
+    (clus) => { true };
+    (clus_selfid) => { true };
+}
+macro_rules! is_selfid {
+    (clus_selfid) => { true };
+    ($x:tt) => { false };
+}
+macro_rules! mode_of {
+    (plain) => { Mode::Plain };
+    (demux) => { Mode::Demux };
+    (bcast) => { Mode::Bcast };
+}
+
+struct Entry {
+    meta: Meta,
+    go: fn(&Meta, &Ctx, &mut Reporter, Option<&Value>),
+}
+
+macro_rules! entries {
+    ($( ($name:ident, $flow:literal, $pay:literal, $T:ty, $ser:tt, $snd:tt, $mode:tt, $rcv:tt); )*) => {
+        $( entry_runner!($name, $T, $ser, $snd, $mode, $rcv); )*
+        fn all_entries() -> Vec<Entry> {
+            vec![ $( Entry {
+                meta: Meta {
+                    entry: stringify!($name), flow: $flow, payload: $pay, ser: stringify!($ser),
+                    snd_cluster: is_clus!($snd), rcv_cluster: is_clus!($rcv), mode: mode_of!($mode),
+                    selfid: is_selfid!($snd),
+                },
+                go: |m: &Meta, ctx: &Ctx, rep: &mut Reporter, rp: Option<&Value>| run_entry::<$T>(m, $name, ctx, rep, rp),
+            } ),* ]
+        }
+    };
+}
+
+type Keyed = (String, Rec);
+
+entries! {
+    (o2o_int, "o2o", "int", PInt, bincode, proc, plain, proc);
+    (o2o_str, "o2o", "str", PStr, bincode, proc, plain, proc);
+    (o2o_optvec, "o2o", "optvec", POptVec, bincode, proc, plain, proc);
+    (o2o_shape, "o2o", "shape", Shape, bincode, proc, plain, proc);
+    (o2o_rec, "o2o", "rec", Rec, bincode, proc, plain, proc);
+    (o2o_routed, "o2o", "routed", Routed, bincode, proc, plain, proc);
+    (o2o_raw_int, "o2o", "int", PInt, embedded, proc, plain, proc);
+    (o2o_raw_rec, "o2o", "rec", Rec, embedded, proc, plain, proc);
+
+    (o2m_demux_int, "o2m_demux", "int", PInt, bincode, proc, demux, clus);
+    (o2m_demux_str, "o2m_demux", "str", PStr, bincode, proc, demux, clus);
+    (o2m_demux_optvec, "o2m_demux", "optvec", POptVec, bincode, proc, demux, clus);
+    (o2m_demux_shape, "o2m_demux", "shape", Shape, bincode, proc, demux, clus);
+    (o2m_demux_rec, "o2m_demux", "rec", Rec, bincode, proc, demux, clus);
+    (o2m_demux_routed, "o2m_demux", "routed", Routed, bincode, proc, demux, clus);
+    (o2m_demux_raw_int, "o2m_demux", "int", PInt, embedded, proc, demux, clus);
+    (o2m_demux_raw_rec, "o2m_demux", "rec", Rec, embedded, proc, demux, clus);
+    (o2m_keyed_demux_str_rec, "o2m_demux", "keyed", Keyed, bincode, proc, demux, clus);
+
+    (o2m_bcast_int, "o2m_bcast", "int", PInt, bincode, proc, bcast, clus);
+    (o2m_bcast_str, "o2m_bcast", "str", PStr, bincode, proc, bcast, clus);
+    (o2m_bcast_optvec, "o2m_bcast", "optvec", POptVec, bincode, proc, bcast, clus);
+    (o2m_bcast_shape, "o2m_bcast", "shape", Shape, bincode, proc, bcast, clus);
+    (o2m_bcast_rec, "o2m_bcast", "rec", Rec, bincode, proc, bcast, clus);
+    (o2m_bcast_routed, "o2m_bcast", "routed", Routed, bincode, proc, bcast, clus);
+
+    (m2o_int, "m2o", "int", PInt, bincode, clus, plain, proc);
+    (m2o_str, "m2o", "str", PStr, bincode, clus, plain, proc);
+    (m2o_optvec, "m2o", "optvec", POptVec, bincode, clus, plain, proc);
+    (m2o_shape, "m2o", "shape", Shape, bincode, clus, plain, proc);
+    (m2o_rec, "m2o", "rec", Rec, bincode, clus, plain, proc);
+    (m2o_routed, "m2o", "routed", Routed, bincode, clus, plain, proc);
+    (m2o_raw_int, "m2o", "int", PInt, embedded, clus, plain, proc);
+    (m2o_raw_rec, "m2o", "rec", Rec, embedded, clus, plain, proc);
+    (m2o_keyed_str_rec, "m2o", "keyed", Keyed, bincode, clus, plain, proc);
+    (m2o_selfid_int, "m2o", "int", PInt, bincode, clus_selfid, plain, proc);
+
+    (m2m_demux_int, "m2m_demux", "int", PInt, bincode, clus, demux, clus);
+    (m2m_demux_str, "m2m_demux", "str", PStr, bincode, clus, demux, clus);
+    (m2m_demux_optvec, "m2m_demux", "optvec", POptVec, bincode, clus, demux, clus);
+    (m2m_demux_shape, "m2m_demux", "shape", Shape, bincode, clus, demux, clus);
+    (m2m_demux_rec, "m2m_demux", "rec", Rec, bincode, clus, demux, clus);
+    (m2m_demux_routed, "m2m_demux", "routed", Routed, bincode, clus, demux, clus);
+    (m2m_demux_raw_int, "m2m_demux", "int", PInt, embedded, clus, demux, clus);
+    (m2m_demux_raw_rec, "m2m_demux", "rec", Rec, embedded, clus, demux, clus);
+
+    (m2m_bcast_int, "m2m_bcast", "int", PInt, bincode, clus, bcast, clus);
+    (m2m_bcast_str, "m2m_bcast", "str", PStr, bincode, clus, bcast, clus);
+    (m2m_bcast_optvec, "m2m_bcast", "optvec", POptVec, bincode, clus, bcast, clus);
+    (m2m_bcast_shape, "m2m_bcast", "shape", Shape, bincode, clus, bcast, clus);
+    (m2m_bcast_rec, "m2m_bcast", "rec", Rec, bincode, clus, bcast, clus);
+    (m2m_bcast_routed, "m2m_bcast", "routed", Routed, bincode, clus, bcast, clus);
+}
+
+const FLOWS: [&str; 6] = ["o2o", "o2m_demux", "o2m_bcast", "m2o", "m2m_demux", "m2m_bcast"];
+const PAYLOADS: [&str; 7] = ["int", "str", "optvec", "shape", "rec", "routed", "keyed"];
+
+// =================================================================================================
+// value generators
+
+const ID_EDGES: [u32; 14] =
+    [0, 1, 2, 3, 255, 256, 65_535, 65_536, 65_537, 0x7FFF_FFFF, 0x8000_0000, 0x8000_0001, u32::MAX - 1, u32::MAX];
+
+fn gen_raw_id(rng: &mut Rng) -> u32 {
+    match rng.below(4) {
+        0 => rng.below(6) as u32,
+        1 | 2 => *rng.choose(&ID_EDGES),
+        _ => rng.next_u64() as u32,
+    }
+}
+
+trait Gen: Sized + Clone + PartialEq + Serialize + DeserializeOwned + 'static {
+    fn edges() -> Vec<Self>;
+    fn gen_random(rng: &mut Rng, depth: u32) -> Self;
+}
+
+impl Gen for i64 {
+    fn edges() -> Vec<i64> {
+        vec![
+            0, 1, -1, i64::MIN, i64::MAX, i64::MIN + 1, i64::MAX - 1, 127, 128, 250, 251, 252, 253, 254, 255, 256,
+            65_535, 65_536, (1 << 31) - 1, 1 << 31, (1 << 32) - 1, 1 << 32, -(1 << 31) - 1, -128, -129,
+        ]
+    }
+    fn gen_random(rng: &mut Rng, _d: u32) -> i64 {
+        match rng.below(4) {
+            0 => rng.range(-300, 300),
+            1 => (rng.next_u64() >> rng.below(64)) as i64,
+            2 => -((rng.next_u64() >> (1 + rng.below(63))) as i64),
+            _ => rng.next_u64() as i64,
+        }
+    }
+}
+
+const CHARS: [char; 24] = [
+    'a', 'b', 'Z', '0', ' ', '\0', '\n', '"', '\\', '\'', '\t', 'é', 'ß', 'Ω', '日', '本', '語', '🦀', '\u{10FFFF}', '\u{7f}',
+    '\u{80}', '\u{7ff}', '\u{800}', '\u{ffff}',
+];
+
+impl Gen for String {
+    fn edges() -> Vec<String> {
+        vec![
+            String::new(),
+            " ".into(),
+            "\0".into(),
+            "\0\0x\0".into(),
+            "a".into(),
+            "é".into(),
+            "日本語".into(),
+            "🦀🦀".into(),
+            "\u{10FFFF}".into(),
+            "line\nbreak \"quoted\" \\ back".into(),
+            "x".repeat(250),
+            "x".repeat(251),
+            "y".repeat(255),
+            "z".repeat(256),
+            "w".repeat(70_000),
+            "語".repeat(100),
+        ]
+    }
+    fn gen_random(rng: &mut Rng, _d: u32) -> String {
+        let len = match rng.below(8) {
+            0 => 0,
+            1..=5 => rng.below(12),
+            6 => rng.below(80),
+            _ => 240 + rng.below(30),
+        };
+        (0..len).map(|_| *rng.choose(&CHARS)).collect()
+    }
+}
+
+fn gen_len(rng: &mut Rng, depth: u32) -> usize {
+    if depth == 0 {
+        return rng.below(2);
+    }
+    match rng.below(6) {
+        0 => 0,
+        1..=3 => 1 + rng.below(3),
+        4 => rng.below(8),
+        _ => rng.below(20),
+    }
+}
+
+impl<A: Gen, B: Gen> Gen for (A, B) {
+    fn edges() -> Vec<(A, B)> {
+        let (a, b) = (A::edges(), B::edges());
+        (0..a.len().max(b.len())).map(|i| (a[i % a.len()].clone(), b[i % b.len()].clone())).collect()
+    }
+    fn gen_random(rng: &mut Rng, d: u32) -> (A, B) {
+        (A::gen_random(rng, d), B::gen_random(rng, d))
+    }
+}
+impl<A: Gen> Gen for Option<A> {
+    fn edges() -> Vec<Option<A>> {
+        let mut v = vec![None];
+        v.extend(A::edges().into_iter().map(Some));
+        v
+    }
+    fn gen_random(rng: &mut Rng, d: u32) -> Option<A> {
+        if rng.chance(1, 4) { None } else { Some(A::gen_random(rng, d)) }
+    }
+}
+impl<A: Gen> Gen for Vec<A> {
+    fn edges() -> Vec<Vec<A>> {
+        let e = A::edges();
+        vec![vec![], vec![e[0].clone()], e.clone(), (0..300).map(|i| e[i % e.len()].clone()).collect()]
+    }
+    fn gen_random(rng: &mut Rng, d: u32) -> Vec<A> {
+        (0..gen_len(rng, d)).map(|_| A::gen_random(rng, d.saturating_sub(1))).collect()
+    }
+}
+
+fn nest_shape(depth: usize, inner: Shape) -> Shape {
+    (0..depth).fold(inner, |s, i| if i % 3 == 2 { Shape::Many(vec![s]) } else { Shape::Nest(Box::new(s)) })
+}
+
+impl Gen for Shape {
+    fn edges() -> Vec<Shape> {
+        vec![
+            Shape::Unit,
+            Shape::One(0),
+            Shape::One(i64::MIN),
+            Shape::One(i64::MAX),
+            Shape::Pair(-1, String::new()),
+            Shape::Pair(i64::MAX, "🦀".into()),
+            Shape::Named { x: None, tags: vec![] },
+            Shape::Named { x: Some(i64::MIN), tags: vec![String::new(), "\0".into(), "t".repeat(300)] },
+            Shape::Nest(Box::new(Shape::Unit)),
+            Shape::Many(vec![]),
+            Shape::Many(vec![Shape::Unit, Shape::Unit, Shape::One(1), Shape::Many(vec![])]),
+            nest_shape(30, Shape::Named { x: Some(7), tags: vec!["deep".into()] }),
+            nest_shape(30, Shape::Unit),
+        ]
+    }
+    fn gen_random(rng: &mut Rng, d: u32) -> Shape {
+        let k = if d == 0 { rng.below(4) } else { rng.below(6) };
+        match k {
+            0 => Shape::Unit,
+            1 => Shape::One(i64::gen_random(rng, 0)),
+            2 => Shape::Pair(i64::gen_random(rng, 0), String::gen_random(rng, 0)),
+            3 => Shape::Named { x: Option::<i64>::gen_random(rng, 0), tags: Vec::<String>::gen_random(rng, d.min(1)) },
+            4 => Shape::Nest(Box::new(Shape::gen_random(rng, d - 1))),
+            _ => Shape::Many((0..gen_len(rng, d).min(5)).map(|_| Shape::gen_random(rng, d - 1)).collect()),
+        }
+    }
+}
+
+fn blank_rec() -> Rec {
+    Rec {
+        id: 0,
+        name: String::new(),
+        opt: None,
+        items: vec![],
+        shape: Shape::Unit,
+        unit: (),
+        flag: false,
+        pair: (String::new(), (0, vec![])),
+    }
+}
+
+impl Gen for Rec {
+    fn edges() -> Vec<Rec> {
+        let full = Rec {
+            id: i64::MIN,
+            name: "名前 \0 🦀".into(),
+            opt: Some(Box::new(blank_rec())),
+            items: vec![(i64::MAX, None), (i64::MIN, Some(String::new())), (0, Some("x".repeat(256)))],
+            shape: nest_shape(8, Shape::Pair(-1, "p".into())),
+            unit: (),
+            flag: true,
+            pair: ("k".into(), (i64::MAX, vec![None, Some(i64::MIN), Some(0), None])),
+        };
+        let chain = (0..25).fold(blank_rec(), |r, i| Rec { id: i, opt: Some(Box::new(r)), flag: i % 2 == 0, ..blank_rec() });
+        let wide = Rec { items: (0..400).map(|i| (i, if i % 3 == 0 { None } else { Some(i.to_string()) })).collect(), ..blank_rec() };
+        vec![
+            blank_rec(),
+            Rec { id: i64::MAX, flag: true, ..blank_rec() },
+            Rec { id: -1, pair: (String::new(), (i64::MIN, vec![None])), ..blank_rec() },
+            full.clone(),
+            Rec { opt: Some(Box::new(full)), ..blank_rec() },
+            chain,
+            wide,
+        ]
+    }
+    fn gen_random(rng: &mut Rng, d: u32) -> Rec {
+        Rec {
+            id: i64::gen_random(rng, 0),
+            name: String::gen_random(rng, 0),
+            opt: if d > 0 && rng.chance(1, 2) { Some(Box::new(Rec::gen_random(rng, d - 1))) } else { None },
+            items: Vec::<(i64, Option<String>)>::gen_random(rng, d.min(1)),
+            shape: Shape::gen_random(rng, d),
+            unit: (),
+            flag: rng.chance(1, 2),
+            pair: (String::gen_random(rng, 0), (i64::gen_random(rng, 0), Vec::<Option<i64>>::gen_random(rng, d.min(1)))),
+        }
+    }
+}
+
+impl Gen for Routed {
+    fn edges() -> Vec<Routed> {
+        let mut v = vec![Routed { via: MemberId::from_raw_id(0), hops: vec![], reply_to: None, body: String::new() }];
+        for (i, id) in ID_EDGES.iter().enumerate() {
+            v.push(Routed {
+                via: mk_member(*id),
+                hops: ID_EDGES[..i].iter().rev().map(|h| mk_member(*h)).collect(),
+                reply_to: if i % 2 == 0 { Some((mk_member(ID_EDGES[ID_EDGES.len() - 1 - i]), i64::MIN + i as i64)) } else { None },
+                body: "b".repeat(i),
+            });
+        }
+        v
+    }
+    fn gen_random(rng: &mut Rng, d: u32) -> Routed {
+        Routed {
+            via: mk_member(gen_raw_id(rng)),
+            hops: (0..gen_len(rng, d)).map(|_| mk_member(gen_raw_id(rng))).collect(),
+            reply_to: if rng.chance(1, 2) { Some((mk_member(gen_raw_id(rng)), i64::gen_random(rng, 0))) } else { None },
+            body: String::gen_random(rng, 0),
+        }
+    }
+}
+
+// =================================================================================================
+// scenario generator
+
+struct Ctx {
+    rng: Rng,
+    cases: usize,
+    tier: Tier,
+}
+
+fn pick_ids(rng: &mut Rng, n: usize, avoid: &[u32]) -> Vec<u32> {
+    let mut v: Vec<u32> = vec![];
+    while v.len() < n {
+        let id = gen_raw_id(rng);
+        if !v.contains(&id) && !avoid.contains(&id) {
+            v.push(id);
+        }
+    }
+    v
+}
+
+fn pick_count(rng: &mut Rng) -> usize {
+    match rng.below(10) {
+        0 => 1,
+        1..=3 => 2,
+        4..=7 => 3,
+        _ => 4,
+    }
+}
+
+/// An id that is not a member but looks like one: same low 16 bits / neighbour / index-like.
+fn pick_unknown(rng: &mut Rng, dst: &[u32]) -> u32 {
+    for _ in 0..64 {
+        let m = *rng.choose(dst);
+        let c = match rng.below(6) {
+            0 => m ^ 0x1_0000,
+            1 => m.wrapping_add(1),
+            2 => m.wrapping_sub(1),
+            3 => rng.below(dst.len() + 1) as u32,
+            4 => m ^ 0x8000_0000,
+            _ => gen_raw_id(rng),
+        };
+        if !dst.contains(&c) {
+            return c;
+        }
+    }
+    (0..=u32::MAX).find(|c| !dst.contains(c)).unwrap()
+}
+
+fn gen_value<T: Gen>(rng: &mut Rng, edges: &[T]) -> T {
+    if rng.chance(3, 10) { rng.choose(edges).clone() } else { T::gen_random(rng, 3) }
+}
+
+fn gen_scenario<T: Gen>(meta: &Meta, rng: &mut Rng, case_idx: usize, tier: Tier) -> Scenario<T> {
+    let edges = T::edges();
+    let showcase = case_idx == 0;
+    let ns = if meta.snd_cluster { if showcase { 3 } else { pick_count(rng) } } else { 0 };
+    let nr = if meta.rcv_cluster { if showcase { 3 } else { pick_count(rng) } } else { 0 };
+    let (src_ids, dst_ids) = if showcase {
+        (pick_ids(rng, ns, &[]), if nr > 0 { vec![u32::MAX, 0, 65_536] } else { vec![] })
+    } else {
+        let src = pick_ids(rng, ns, &[]);
+        // the two clusters are tagged differently, so they may (and sometimes do) use the same raw ids
+        let dst = if ns == nr && nr > 0 && rng.chance(1, 5) { src.clone() } else { pick_ids(rng, nr, &[]) };
+        (src, dst)
+    };
+    let senders = ns.max(1);
+    let unknown: Vec<u32> = if meta.mode == Mode::Demux && !showcase && rng.chance(1, 4) {
+        (0..1 + rng.below(2)).map(|_| pick_unknown(rng, &dst_ids)).collect()
+    } else {
+        vec![]
+    };
+
+    let mut rounds: Vec<Round<T>> = vec![];
+    // membership plan (broadcast flows only): role 0 = there from the start, 1 = joins late, 2 = leaves
+    // (and may come back); all of them are receiver instances
+    let mut role: Vec<u32> = vec![0; nr];
+    if meta.mode == Mode::Bcast {
+        if !showcase {
+            for r in role.iter_mut().skip(1) {
+                *r = match rng.below(10) {
+                    0 | 1 => 1,
+                    2 | 3 => 2,
+                    _ => 0,
+                };
+            }
+        }
+        let mut init: Vec<(u32, bool)> = (0..nr).filter(|r| role[*r] != 1).map(|r| (dst_ids[r], true)).collect();
+        rng.shuffle(&mut init);
+        if init.len() > 1 && rng.chance(1, 3) {
+            let tail = init.split_off(1 + rng.below(init.len() - 1));
+            rounds.push(Round::Mem(init));
+            rounds.push(Round::Mem(tail));
+        } else {
+            rounds.push(Round::Mem(init));
+        }
+    }
+    let data_rounds = if showcase { 2 } else { 1 + rng.below(4) };
+    let big = tier == Tier::Thorough && rng.chance(1, 20);
+    let mut edge_cursor = 0usize;
+    let mut rr = 0usize;
+    for k in 0..data_rounds {
+        if meta.mode == Mode::Bcast && k > 0 {
+            let mut evs = vec![];
+            for r in 0..nr {
+                let id = dst_ids[r];
+                match role[r] {
+                    1 if rng.chance(1, 2) => {
+                        evs.push((id, true));
+                        role[r] = 0;
+                    }
+                    2 if rng.chance(1, 2) => {
+                        evs.push((id, false));
+                        role[r] = 3;
+                    }
+                    3 if rng.chance(1, 3) => {
+                        evs.push((id, true));
+                        role[r] = 0;
+                    }
+                    _ => {}
+                }
+            }
+            if !evs.is_empty() {
+                rounds.push(Round::Mem(evs));
+            }
+        }
+        let mut per: Vec<Vec<(Option<u32>, T)>> = vec![];
+        for _s in 0..senders {
+            let n = if showcase {
+                edges.len().div_ceil(data_rounds * senders)
+            } else if big {
+                rng.below(60)
+            } else if rng.chance(1, 6) {
+                0
+            } else {
+                1 + rng.below(6)
+            };
+            let mut msgs = vec![];
+            for _ in 0..n {
+                let v = if showcase {
+                    edge_cursor += 1;
+                    edges[(edge_cursor - 1) % edges.len()].clone()
+                } else {
+                    gen_value(rng, &edges)
+                };
+                let d = if meta.mode == Mode::Demux {
+                    Some(if showcase {
+                        rr += 1;
+                        dst_ids[(rr - 1) % dst_ids.len()]
+                    } else if !unknown.is_empty() && rng.chance(1, 5) {
+                        *rng.choose(&unknown)
+                    } else {
+                        *rng.choose(&dst_ids)
+                    })
+                } else {
+                    None
+                };
+                msgs.push((d, v));
+            }
+            per.push(msgs);
+        }
+        rounds.push(Round::Data(per));
+    }
+    Scenario { entry: meta.entry.to_string(), src_ids, dst_ids, rounds, net_seed: rng.next_u64() }
+}
+
+// =================================================================================================
+// oracle
+
+fn js<T: Serialize>(t: &T) -> String {
+    serde_json::to_string(t).unwrap_or_else(|e| format!("<unprintable: {e}>"))
+}
+fn short(s: &str) -> String {
+    if s.chars().count() > 240 { format!("{}… ({} chars)", s.chars().take(240).collect::<String>(), s.chars().count()) } else { s.to_string() }
+}
+
+struct Facts {
+    has_unknown: bool,
+    has_late: bool,
+    has_leaver: bool,
+    big_ids: bool,
+    values: u64,
+}
+
+fn facts<T>(meta: &Meta, sc: &Scenario<T>) -> Facts {
+    let dst: std::collections::HashSet<u32> = sc.dst_ids.iter().copied().collect();
+    let mut f = Facts { has_unknown: false, has_late: false, has_leaver: false, big_ids: false, values: 0 };
+    f.big_ids = sc.src_ids.iter().chain(sc.dst_ids.iter()).any(|i| *i > u16::MAX as u32);
+    let mut seen_data = false;
+    for r in &sc.rounds {
+        match r {
+            Round::Mem(evs) => {
+                for (_, j) in evs {
+                    if *j && seen_data {
+                        f.has_late = true;
+                    }
+                    if !*j {
+                        f.has_leaver = true;
+                    }
+                }
+            }
+            Round::Data(per) => {
+                seen_data = true;
+                for m in per {
+                    for (d, _) in m {
+                        f.values += 1;
+                        if let Some(d) = d {
+                            if meta.mode == Mode::Demux && !dst.contains(d) {
+                                f.has_unknown = true;
+                            }
+                        }
+                    }
+                }
+            }
+        }
+    }
+    f
+}
+
+/// Judge one executed scenario. Returns the number of (message, receiver) deliveries that were compared.
+fn judge<T: Gen>(meta: &Meta, sc: &Scenario<T>, obs: &Observed<T>, rep: &mut Reporter) -> (u64, bool) {
+    let ns = sc.src_ids.len().max(1);
+    let nr = sc.dst_ids.len().max(1);
+    let dst_index: HashMap<u32, usize> = sc.dst_ids.iter().enumerate().map(|(i, id)| (*id, i)).collect();
+    let src_index: HashMap<u32, usize> = sc.src_ids.iter().enumerate().map(|(i, id)| (*id, i)).collect();
+    let case = || json!({"engine": "hydro/hv_net_emb", "family": meta.entry, "scenario": serde_json::to_value(sc).unwrap()});
+    let sig = |kind: &str| format!("C35|{}|{}", meta.entry, kind);
+    let mut violated = false;
+
+    // ---- what each receiver instance must see, per sender instance, in order
+    let mut exp: Vec<Vec<Vec<&T>>> = vec![vec![vec![]; ns]; nr];
+    let mut addressed: Vec<Vec<u32>> = vec![vec![]; ns];
+    let mut joined: HashMap<u32, bool> = HashMap::new();
+    for round in &sc.rounds {
+        match round {
+            Round::Mem(evs) => {
+                for (id, j) in evs {
+                    joined.insert(*id, *j);
+                }
+            }
+            Round::Data(per) => {
+                for s in 0..ns {
+                    for (d, t) in &per[s] {
+                        match meta.mode {
+                            Mode::Plain => exp[0][s].push(t),
+                            Mode::Demux => {
+                                let d = d.expect("demux dest");
+                                addressed[s].push(d);
+                                if let Some(r) = dst_index.get(&d) {
+                                    exp[*r][s].push(t);
+                                }
+                            }
+                            Mode::Bcast => {
+                                for (r, id) in sc.dst_ids.iter().enumerate() {
+                                    if joined.get(id) == Some(&true) {
+                                        exp[r][s].push(t);
+                                    }
+                                }
+                            }
+                        }
+                    }
+                }
+            }
+        }
+    }
+
+    // ---- what they did see, grouped by the sender tag the program reported
+    let mut got: Vec<Vec<Vec<&T>>> = vec![vec![vec![]; ns]; nr];
+    for r in 0..nr {
+        for (tag, t) in &obs.recv[r] {
+            rep.eval();
+            let s = match (meta.snd_cluster, tag) {
+                (false, None) => Some(0),
+                (true, Some(tag)) => src_index.get(&tag.get_raw_id()).copied(),
+                _ => None,
+            };
+            match s {
+                Some(s) => got[r][s].push(t),
+                None => {
+                    violated = true;
+                    rep.violation(
+                        &sig("unknown-sender-tag"),
+                        &format!(
+                            "receiver #{r} (id {:?}) output a value tagged with sender {:?}, which is not a member of the sending cluster {:?}; value {}",
+                            sc.dst_ids.get(r), tag, sc.src_ids, short(&js(t))
+                        ),
+                        case(),
+                    );
+                }
+            }
+        }
+    }
+
+    // ---- compare
+    let mut compared = 0u64;
+    let mut missing: Vec<(usize, usize, String)> = vec![];
+    let mut extra: Vec<(usize, usize, String)> = vec![];
+    let mut order_only: Option<(usize, usize)> = None;
+    let mut first_diff: Option<String> = None;
+    for r in 0..nr {
+        for s in 0..ns {
+            let (e, g) = (&exp[r][s], &got[r][s]);
+            compared += e.len() as u64;
+            rep.evals(e.len() as u64);
+            if e.len() == g.len() && e.iter().zip(g.iter()).all(|(a, b)| a == b) {
+                continue;
+            }
+            if first_diff.is_none() {
+                let pos = e.iter().zip(g.iter()).position(|(a, b)| a != b).unwrap_or(e.len().min(g.len()));
+                first_diff = Some(format!(
+                    "receiver #{r} (id {:?}) from sender #{s} (id {:?}): expected {} values, got {}; first difference at position {pos}: expected {} got {}",
+                    sc.dst_ids.get(r), sc.src_ids.get(s), e.len(), g.len(),
+                    e.get(pos).map(|x| short(&js(x))).unwrap_or("<nothing>".into()),
+                    g.get(pos).map(|x| short(&js(x))).unwrap_or("<nothing>".into()),
+                ));
+            }
+            let mut bag: BTreeMap<String, i64> = BTreeMap::new();
+            for x in e {
+                *bag.entry(js(x)).or_insert(0) += 1;
+            }
+            for x in g {
+                *bag.entry(js(x)).or_insert(0) -= 1;
+            }
+            let mut any = false;
+            for (k, n) in bag {
+                for _ in 0..n.max(0) {
+                    missing.push((r, s, k.clone()));
+                    any = true;
+                }
+                for _ in 0..(-n).max(0) {
+                    extra.push((r, s, k.clone()));
+                    any = true;
+                }
+            }
+            if !any {
+                order_only.get_or_insert((r, s));
+            }
+        }
+    }
+    if first_diff.is_some() {
+        violated = true;
+        let kind = if extra.iter().any(|(r, s, k)| missing.iter().any(|(r2, s2, k2)| r2 == r && s2 != s && k2 == k)) {
+            "wrong-sender-tag"
+        } else if extra.iter().any(|(r, _, k)| missing.iter().any(|(r2, _, k2)| r2 != r && k2 == k)) {
+            "misrouted"
+        } else if !extra.is_empty() && !missing.is_empty() {
+            "value-mismatch"
+        } else if !extra.is_empty() {
+            "duplicate-or-spurious"
+        } else if !missing.is_empty() {
+            "lost"
+        } else {
+            "order"
+        };
+        rep.violation(
+            &sig(kind),
+            &format!(
+                "{} [{} expected deliveries missing, {} unexpected; undeliverable frames {:?}]",
+                first_diff.unwrap(),
+                missing.len(),
+                extra.len(),
+                obs.log.undeliverable
+            ),
+            case(),
+        );
+    }
+
+    // ---- destination tags on the wire
+    match meta.mode {
+        Mode::Demux => {
+            for s in 0..ns {
+                rep.eval();
+                let mut a = addressed[s].clone();
+                let mut w: Vec<u32> = obs.log.wire_tags[s].iter().map(|t| t.expect("demux frame without tag")).collect();
+                a.sort();
+                w.sort();
+                if a != w {
+                    violated = true;
+                    rep.violation(
+                        &sig("wire-dest-tag"),
+                        &format!("sender #{s} (id {:?}) was asked to address {:?} (sorted) but put destination tags {:?} on the wire", sc.src_ids.get(s), a, w),
+                        case(),
+                    );
+                }
+            }
+        }
+        Mode::Bcast => {
+            rep.eval();
+            if !obs.log.undeliverable.is_empty() {
+                violated = true;
+                rep.violation(
+                    &sig("broadcast-to-never-announced-id"),
+                    &format!("broadcast frames were addressed to ids that never appeared in a membership event: {:?}", obs.log.undeliverable),
+                    case(),
+                );
+            }
+            // "Each element is only broadcast to the current cluster members at that point in time"
+            rep.eval();
+            if !obs.log.to_left.is_empty() {
+                violated = true;
+                rep.violation(
+                    &sig("broadcast-to-left-member"),
+                    &format!(
+                        "broadcast frames (sender #, destination id) {:?} were emitted in a tick after the tick in which the destination's Left event was fed (and before any re-join)",
+                        obs.log.to_left
+                    ),
+                    case(),
+                );
+            }
+        }
+        Mode::Plain => {}
+    }
+
+    // ---- CLUSTER_SELF_ID stamped by the sender == the id the instance was created with == transport tag
+    if meta.selfid {
+        for (tag, stamped) in &obs.side {
+            rep.eval();
+            if tag != stamped {
+                violated = true;
+                rep.violation(
+                    &sig("self-id-mismatch"),
+                    &format!("member created with id {tag:?} stamped its message with CLUSTER_SELF_ID = {stamped:?}"),
+                    case(),
+                );
+            }
+        }
+    }
+    (compared, violated)
+}
+
+fn one_case<T: Gen>(meta: &Meta, run: fn(&Scenario<T>, &Meta) -> Observed<T>, sc: &Scenario<T>, rep: &mut Reporter) {
+    let f = facts(meta, sc);
+    rep.count(&format!("cases:{}", meta.flow));
+    rep.count(&format!("cases_ser:{}", meta.ser));
+    match catch(|| run(sc, meta)) {
+        Ok(obs) => {
+            let (compared, violated) = judge(meta, sc, &obs, rep);
+            rep.count_n(&format!("values:{}", meta.payload), f.values);
+            rep.count_n("deliveries_compared", compared);
+            rep.count_n("frames_on_wire", obs.log.frames);
+            rep.count_n("frames_undeliverable_unknown_id", obs.log.undeliverable.len() as u64);
+            rep.count_n("bcast_frames_to_left_member", obs.log.to_left.len() as u64);
+            if f.has_unknown {
+                rep.count("cases_with_unknown_destination");
+            }
+            if f.has_late {
+                rep.count("cases_with_late_joiner");
+            }
+            if f.has_leaver {
+                rep.count("cases_with_leaver");
+            }
+            if f.big_ids {
+                rep.count("cases_with_ids_above_u16");
+            }
+            // non-trivial: a cluster with >= 2 members on at least one side and >= 2 compared deliveries
+            // with different (sender, receiver) endpoints
+            let mut ends = std::collections::HashSet::new();
+            for (r, v) in obs.recv.iter().enumerate() {
+                for (tag, _) in v {
+                    ends.insert((r, tag.clone()));
+                }
+            }
+            let members = sc.src_ids.len().max(sc.dst_ids.len());
+            if members >= 2 && ends.len() >= 2 && !violated {
+                rep.nontrivial(hash_of(&js(sc)));
+                rep.count(&format!("nontrivial:{}", meta.flow));
+            }
+            rep.sample(|| {
+                json!({"entry": meta.entry, "src_ids": sc.src_ids, "dst_ids": sc.dst_ids, "messages": f.values,
+                       "rounds": sc.rounds.len(), "frames": obs.log.frames, "deliveries_compared": compared,
+                       "undeliverable": obs.log.undeliverable.len()})
+            });
+        }
+        Err(msg) => {
+            if f.has_unknown {
+                // nothing is documented about sends to an id that never joined; a refusal is an observation
+                rep.count("panic_on_unknown_destination(observation)");
+            } else {
+                rep.violation(
+                    &format!("C35|{}|panic", meta.entry),
+                    &format!("generated code panicked: {}", short(&msg)),
+                    json!({"engine": "hydro/hv_net_emb", "family": meta.entry, "scenario": serde_json::to_value(sc).unwrap()}),
+                );
+            }
+        }
+    }
+}
+
+fn run_entry<T: Gen>(
+    meta: &Meta,
+    run: fn(&Scenario<T>, &Meta) -> Observed<T>,
+    ctx: &Ctx,
+    rep: &mut Reporter,
+    replay: Option<&Value>,
+) {
+    if let Some(case) = replay {
+        let sc: Scenario<T> = serde_json::from_value(case["scenario"].clone()).expect("replay: scenario does not parse");
+        one_case(meta, run, &sc, rep);
+        return;
+    }
+    for i in 0..ctx.cases {
+        let mut rng = ctx.rng.fork(hash_of(meta.entry) ^ (i as u64).wrapping_mul(0x9E37_79B9));
+        let sc = gen_scenario::<T>(meta, &mut rng, i, ctx.tier);
+        one_case(meta, run, &sc, rep);
+    }
+}
+
+// =================================================================================================
+// MemberId <-> TaglessMemberId
+
+fn check_member_ids(rep: &mut Reporter, rng: &mut Rng, n: usize, replay: Option<&Value>) {
+    let one = |rep: &mut Reporter, raw: u32, other: u32| {
+        let case = json!({"engine": "hydro/hv_net_emb", "family": "member_id", "raw": raw, "other": other});
+        let bad = |rep: &mut Reporter, kind: &str, what: String| {
+            rep.violation(&format!("C35|member_id|{kind}"), &what, case.clone());
+        };
+        let r = catch(|| {
+            let mut fails: Vec<(&'static str, String)> = vec![];
+            let a = MemberId::<Src>::from_raw_id(raw);
+            let t = TaglessMemberId::from_raw_id(raw);
+            if a.get_raw_id() != raw {
+                fails.push(("from_raw_id-get_raw_id", format!("MemberId::from_raw_id({raw}).get_raw_id() = {}", a.get_raw_id())));
+            }
+            if t.get_raw_id() != raw {
+                fails.push(("tagless-from_raw_id-get_raw_id", format!("TaglessMemberId::from_raw_id({raw}).get_raw_id() = {}", t.get_raw_id())));
+            }
+            let at = a.clone().into_tagless();
+            if at != t {
+                fails.push(("into_tagless", format!("MemberId::from_raw_id({raw}).into_tagless() = {at:?}, expected {t:?}")));
+            }
+            let b = MemberId::<Src>::from_tagless(t.clone());
+            if b != a || b.get_raw_id() != raw {
+                fails.push(("from_tagless", format!("MemberId::from_tagless({t:?}) = {b:?}, expected {a:?}")));
+            }
+            let bt = b.into_tagless();
+            if bt != t {
+                fails.push(("from_tagless-into_tagless", format!("from_tagless({t:?}).into_tagless() = {bt:?}")));
+            }
+            let c = MemberId::<Dst>::from_tagless(a.clone().into_tagless());
+            if c.into_tagless() != t {
+                fails.push(("retag", format!("re-tagging {a:?} through its untyped form changed it")));
+            }
+            // distinct ids stay distinct, equal ids stay equal
+            let o = MemberId::<Src>::from_raw_id(other);
+            if (o == a) != (other == raw) || (o.clone().into_tagless() == t) != (other == raw) {
+                fails.push(("identity", format!("ids {raw} and {other}: typed equality {} / untyped equality {}", o == a, o.clone().into_tagless() == t)));
+            }
+            // the serde impls of the typed id go through the untyped form
+            let typed = bincode::serialize(&a).unwrap();
+            let untyped = bincode::serialize(&t).unwrap();
+            if typed != untyped {
+                fails.push(("serde-form", format!("MemberId({raw}) serializes to {typed:?} but its untyped form to {untyped:?}")));
+            }
+            match bincode::deserialize::<MemberId<Src>>(&typed) {
+                Ok(back) if back == a && back.get_raw_id() == raw => {}
+                res => fails.push(("serde-roundtrip", format!("bincode round trip of MemberId({raw}) gave {res:?}"))),
+            }
+            match serde_json::from_str::<MemberId<Dst>>(&serde_json::to_string(&a).unwrap()) {
+                Ok(back) if back.clone().into_tagless() == t => {}
+                res => fails.push(("serde-roundtrip-json", format!("json round trip of MemberId({raw}) gave {res:?}"))),
+            }
+            fails
+        });
+        rep.evals(10);
+        match r {
+            Ok(fails) => {
+                for (k, w) in fails {
+                    bad(rep, k, w);
+                }
+            }
+            Err(msg) => bad(rep, "panic", format!("member id conversions panicked for raw id {raw}: {msg}")),
+        }
+    };
+    if let Some(case) = replay {
+        one(rep, case["raw"].as_u64().unwrap() as u32, case["other"].as_u64().unwrap() as u32);
+        return;
+    }
+    for (i, raw) in ID_EDGES.iter().enumerate() {
+        one(rep, *raw, ID_EDGES[(i + 1) % ID_EDGES.len()]);
+        one(rep, *raw, *raw);
+        one(rep, *raw, *raw ^ 0x1_0000);
+        rep.count("member_id_roundtrips");
+    }
+    for _ in 0..n {
+        let raw = rng.next_u64() as u32;
+        let other = match rng.below(4) {
+            0 => raw,
+            1 => raw ^ (1 << rng.below(32)),
+            2 => raw & 0xFFFF,
+            _ => rng.next_u64() as u32,
+        };
+        one(rep, raw, other);
+        rep.count("member_id_roundtrips");
+    }
+}
+
+// =================================================================================================
 
 fn main() {
-    let args = vcommon::Args::parse();
+    let args = Args::parse();
     if args.prop == "NONE" {
         return;
     }
-    // Example (replace): drive `double` with the partition [1,2] | [] | [3].
-    let feed = Feed::new();
-    let mut out = vec![];
-    {
-        let mut outputs = emb::double::double::EmbeddedOutputs { output: |x: i64| out.push(x) };
-        let mut flow = emb::double::double(feed.clone(), &mut outputs);
-        for chunk in [vec![1, 2], vec![], vec![3]] {
-            feed.push_all(chunk);
-            flow.run_tick_sync();
-        }
+    if args.prop != "C35" {
+        eprintln!("hv_net_emb serves C35 only (got {})", args.prop);
+        std::process::exit(3);
     }
-    eprintln!("not implemented yet; example output {out:?}");
-    std::process::exit(3);
+    let mut rep = Reporter::new("C35", args.seed);
+    let entries = all_entries();
+    let only: Option<String> = args.rest.iter().position(|a| a == "--only").map(|i| args.rest[i + 1].clone());
+
+    if let Some(case) = args.replay_case() {
+        let fam = case["family"].as_str().unwrap_or("").to_string();
+        if fam == "member_id" {
+            check_member_ids(&mut rep, &mut args.rng(), 0, Some(&case));
+        } else {
+            let e = entries.iter().find(|e| e.meta.entry == fam).unwrap_or_else(|| {
+                eprintln!("replay: unknown family {fam}");
+                std::process::exit(3);
+            });
+            let ctx = Ctx { rng: args.rng(), cases: 0, tier: args.tier };
+            (e.go)(&e.meta, &ctx, &mut rep, Some(&case));
+        }
+        rep.finish("replay of one recorded case", false);
+        return;
+    }
+
+    let cases = args.budget(150, 1500, 2);
+    let ctx = Ctx { rng: args.rng(), cases, tier: args.tier };
+    for e in &entries {
+        if only.as_deref().is_some_and(|o| !e.meta.entry.contains(o)) {
+            continue;
+        }
+        (e.go)(&e.meta, &ctx, &mut rep, None);
+    }
+    let mut rng = args.rng().fork(0x1D5);
+    check_member_ids(&mut rep, &mut rng, args.budget(10_000, 100_000, 50), None);
+
+    if only.is_none() && args.tier != Tier::Miri {
+        let per_flow_cases = (cases * 6) as u64;
+        for f in FLOWS {
+            rep.require(rep.counter(&format!("cases:{f}")) >= per_flow_cases, &format!("flow shape {f}: fewer than {per_flow_cases} cases ran"));
+            if f != "o2o" {
+                rep.require(
+                    rep.counter(&format!("nontrivial:{f}")) >= (cases * 3) as u64,
+                    &format!("flow shape {f}: fewer than {} non-trivial cases", cases * 3),
+                );
+            }
+        }
+        let want_values = args.budget(10_000, 100_000, 0) as u64;
+        for p in PAYLOADS {
+            rep.require(
+                rep.counter(&format!("values:{p}")) >= if p == "keyed" { want_values / 4 } else { want_values },
+                &format!("payload type {p}: fewer random values than required went through the generated code"),
+            );
+        }
+        rep.require(rep.counter("cases_ser:embedded") >= (cases * 6) as u64, "too few cases with `.embedded()` serialization");
+        rep.require(rep.counter("cases_with_unknown_destination") >= 100, "too few cases with a send to an id that is not a member");
+        rep.require(rep.counter("cases_with_late_joiner") >= 50, "too few broadcast cases with a late joiner");
+        rep.require(rep.counter("cases_with_leaver") >= 50, "too few broadcast cases with a leaving member");
+        rep.require(rep.counter("cases_with_ids_above_u16") >= (cases * 10) as u64, "too few cases with member ids above 65535");
+        rep.require(rep.counter("member_id_roundtrips") >= 1_000, "too few member id round trips");
+    }
+    rep.finish(
+        "Per (flow shape in {o2o, o2m demux, o2m keyed demux, o2m broadcast, m2o, m2o keyed, m2o self-id, m2m demux, m2m broadcast} x \
+         payload type in {i64, String, Option<Vec<(i64,String)>>, enum Shape, struct Rec, struct Routed(with MemberIds), (String,Rec)} x \
+         serialization in {bincode, embedded}) the production generator emitted sender/receiver functions; a case = random \
+         clusters of 1-4 members with non-contiguous raw ids (edges 0..u32::MAX), 1-4 data rounds of 0-6 messages per sender \
+         (values: 30% edge values, else random nested values; case 0 of each entry sends every edge value), random destinations \
+         (incl. ids that are no member), for broadcasts a membership history (initial joins, late joiners, leavers, re-joiners), \
+         and a transport schedule (random per-link delay and interleaving, per-link FIFO). Oracle: per (receiver instance, sender) \
+         the received sequence equals the sequence addressed to it (value equality, order, exactly once, right sender tag), nothing \
+         else arrives anywhere, wire destination tags equal the addressed ids, CLUSTER_SELF_ID equals the instance id; plus \
+         MemberId<->TaglessMemberId conversions and serde forms for random raw ids. Non-trivial = case with a cluster of >= 2 \
+         members on at least one side and >= 2 compared deliveries with different (sender, receiver) endpoints, all judged correct.",
+        false,
+    );
 }
